@@ -222,6 +222,17 @@ def main():
         tp = ['coq build failed%s' % (' at %s:%s' % m.groups() if m else '')] + tp
     proof_problems += tp
     cone = count_cone(pid)
+    coqchk_note = 'not run (quick tier)'
+    if tier == 'thorough' and not tp:
+        # independent re-check of the compiled closure of props/<pid>.vo, with its axiom report
+        cp = sh('timeout 1500 coqchk -silent -o -Q theories UV -Q props UVP -Q gen UVG UVP.%s 2>&1' % pid, cwd=COQ, timeout=1600)
+        m = re.search(r'\* Axioms:\s*(.*?)\n\s*\n', cp.stdout + '\n\n', flags=re.S)
+        ax = m.group(1).strip() if m else '?'
+        if cp.returncode != 0:
+            proof_problems.append('coqchk rejects the closure of props/%s.vo: %s' % (pid, cp.stdout[-600:]))
+        elif ax != '<none>':
+            proof_problems.append('coqchk reports axioms under props/%s.vo: %s' % (pid, ax[:400]))
+        coqchk_note = 'coqchk -o UVP.%s: rc=%d, axioms: %s' % (pid, cp.returncode, ax[:200])
     failed_files = sorted(set(re.findall(r'File "\./([^"]+\.v)"', logc)) |
                           set(x + '.v' for x in re.findall(r'\*\*\* \[[^\]]*?:\s*(\S+)\.vo\] Error', logc))) if not okc else []
     cone_files = cone_members(pid)
@@ -294,6 +305,7 @@ def main():
             'divergences': len(res['divergences']),
             'monitor_failures': len(res['monitor_fail']),
             'proof_problems': proof_problems,
+            'coqchk': coqchk_note,
         },
         'assumptions': spec.get('assumptions', []),
         'wall_s': round(wall, 1),
